@@ -82,8 +82,21 @@ proof fn lemma_skip_take(b: Seq<u8>, off: int, n: int)
 }
 
 // the item codec is a parameter of serialize_inner / deserialize_inner (function pointers): an uninterpreted list codec
-pub uninterp spec fn enc_items<T>(items: Seq<T>) -> Seq<u8>;
-pub uninterp spec fn dec_items<T>(rem: Seq<u8>, n: int) -> Option<Seq<T>>;
+// (the LIST codec is the fold of an uninterpreted ITEM codec: enc_item = the bytes `serialize_value` appends for one item, dec_item = the
+// item `deserialize_value` reads from the head of the remaining bytes and the number of bytes it consumes; None = it fails)
+pub uninterp spec fn enc_item<T>(x: T) -> Seq<u8>;
+pub uninterp spec fn dec_item<T>(rem: Seq<u8>) -> Option<(T, int)>;
+pub open spec fn enc_items<T>(items: Seq<T>) -> Seq<u8> decreases items.len() {
+    if items.len() == 0 { Seq::empty() } else { enc_items(items.drop_last()) + enc_item(items.last()) }
+}
+pub open spec fn dec_items<T>(rem: Seq<u8>, n: int) -> Option<Seq<T>> decreases n {
+    if n <= 0 { Some(Seq::empty()) } else {
+        match dec_item::<T>(rem) {
+            None => None,
+            Some((x, k)) => match dec_items::<T>(rem.skip(k), n - 1) { None => None, Some(t) => Some(seq![x] + t) },
+        }
+    }
+}
 // the law a (writer, reader) pair of item codecs obeys: reading n items back from what the writer produced for n items
 spec fn item_codec_law<T>() -> bool { forall|s: Seq<T>| #[trigger] dec_items::<T>(enc_items(s), s.len() as int) == Some(s) }
 
@@ -1086,9 +1099,29 @@ fn c11_roundtrip_fi<T: Eq + Hash + Clone>(
 // is the one verified for serialize_inner / deserialize_inner, with the item codec of T.  The two axioms transcribe impl_primitive!
 // for u64 (`bytes.write_u64_le(*self)` / `cursor.read_u64_le()`), and the lemma shows that this codec obeys the codec law.
 // =====================================================================================================================
-trait FrequentItemValue: Sized + Eq + Hash + Clone {}
-impl FrequentItemValue for u64 {}
-impl FrequentItemValue for i64 {}
+// The trait contract is the one every implementation is VERIFIED against in unit fi_items (String, and the `impl_primitive!` bodies of
+// i64 / u64), restated over the uninterpreted item codec: what is assumed here is that the bytes written / the item read are a
+// FUNCTION of the item / of the remaining bytes (fi_items proves the concrete functions; for a String of >= 2^32 bytes the written
+// bytes are not a valid item image - `fits()` there - which is a matter of item_codec_law, not of this contract).
+trait FrequentItemValue: Sized + Eq + Hash + Clone {
+    fn serialize_size(item: &Self) -> (r: usize);
+    fn serialize_value(&self, bytes: &mut SketchBytes)
+      ensures final(bytes)@ == old(bytes)@ + enc_item(*self);
+    fn deserialize_value(cursor: &mut SketchSlice<'_>) -> (r: Result<Self, Error>)
+      ensures
+        dec_item::<Self>(old(cursor).rem()) matches Some((x, k)) ==> r == Ok::<Self, Error>(x) && final(cursor).rem() == old(cursor).rem().skip(k),
+        dec_item::<Self>(old(cursor).rem()) is None ==> r is Err;
+}
+impl FrequentItemValue for u64 {
+    #[verifier::external_body] fn serialize_size(item: &Self) -> (r: usize) { unimplemented!() }
+    #[verifier::external_body] fn serialize_value(&self, bytes: &mut SketchBytes) { unimplemented!() }
+    #[verifier::external_body] fn deserialize_value(cursor: &mut SketchSlice<'_>) -> (r: Result<Self, Error>) { unimplemented!() }
+}
+impl FrequentItemValue for i64 {
+    #[verifier::external_body] fn serialize_size(item: &Self) -> (r: usize) { unimplemented!() }
+    #[verifier::external_body] fn serialize_value(&self, bytes: &mut SketchBytes) { unimplemented!() }
+    #[verifier::external_body] fn deserialize_value(cursor: &mut SketchSlice<'_>) -> (r: Result<Self, Error>) { unimplemented!() }
+}
 #[verifier::external_body] proof fn axiom_item_codec_u64(s: Seq<u64>, rem: Seq<u8>, n: int)
   ensures enc_items::<u64>(s) == enc_u64s(s), dec_items::<u64>(rem, n) == (if rem.len() >= 8 * n { Some(dec_u64s(rem, n)) } else { None }) {}
 proof fn lemma_item_codec_law_u64() ensures item_codec_law::<u64>() {
@@ -1101,21 +1134,91 @@ proof fn lemma_item_codec_law_u64() ensures item_codec_law::<u64>() {
         assert(dec_u64s(enc_u64s(s), s.len() as int) =~= s);
     }
 }
+// `items.iter().map(T::serialize_size).sum()` (R15 std iterator leaf; the body is the original expression).  ASSUMED: the serialized sizes of
+// items that are simultaneously in memory sum to at most 2^62 (they are at most a small constant more than the bytes the items occupy;
+// the sum is only used as the CAPACITY hint of the output buffer).
+#[verifier::external_body]
+fn vx_sum_sizes<T: FrequentItemValue>(items: &[T]) -> (n: usize) ensures n <= 0x3fff_ffff_ffff_ffff { items.iter().map(T::serialize_size).sum() }
+// R3: `.map_err(|_| { Error::insufficient_data(format!(..)) })` on a Result<_, Error>: Ok passes through, Err stays Err
+trait VxReErr<T> { fn vx_reerr(self) -> Result<T, Error>; }
+impl<T> VxReErr<T> for Result<T, Error> {
+  #[verifier::external_body]
+  fn vx_reerr(self) -> (r: Result<T, Error>)
+    ensures self matches Ok(v) ==> r == Ok::<T, Error>(v), self is Err ==> r is Err
+  { unimplemented!() }
+}
+spec fn prepend<T>(a: Seq<T>, o: Option<Seq<T>>) -> Option<Seq<T>> { match o { None => None, Some(t) => Some(a + t) } }
+
 impl<T: FrequentItemValue> FrequentItemsSketch<T> {
-    #[verifier::external_body]
     fn serialize(&self) -> (r: Vec<u8>)
       requires self.hash_map.mwf(), self.hash_map.num_active <= u32::MAX,
       ensures
-        self.stream_weight == 0 ==> r@ == enc_fi_empty(self.lg_max_map_size, self.hash_map.lg_length),
-        self.stream_weight > 0 ==> r@ == enc_fi_nonempty(self.view()),
-    { unimplemented!() }
+        /*@C12.fi.api_image_empty*/ self.stream_weight == 0 ==> r@ == enc_fi_empty(self.lg_max_map_size, self.hash_map.lg_length),
+        /*@C12.fi.api_image*/ self.stream_weight > 0 ==> r@ == enc_fi_nonempty(self.view()),
+    {
+        self.serialize_inner(
+            |items: &[T]| -> (n: usize) ensures n <= 0x3fff_ffff_ffff_ffff { vx_sum_sizes::<T>(items) },
+            |bytes: &mut SketchBytes, items: &[T]| ensures /*@C12.fi.api_items*/ final(bytes)@ == old(bytes)@ + enc_items(items@) {
+                proof { assert(items@.take(0) =~= Seq::<T>::empty()); assert(old(bytes)@ + enc_items(items@.take(0)) =~= old(bytes)@); }
+                let mut vx_i1 = 0;
+                while vx_i1 < items.len()
+                  invariant vx_i1 <= items@.len(), /*@C12.fi.api_items*/ bytes@ == old(bytes)@ + enc_items(items@.take(vx_i1 as int)),
+                  decreases items@.len() - vx_i1
+                {
+                    let item = &items[vx_i1];
+                    item.serialize_value(bytes);
+                    proof {
+                        let a = items@.take(vx_i1 + 1);
+                        assert(a.drop_last() =~= items@.take(vx_i1 as int));
+                        assert(a.last() == *item);
+                        assert(bytes@ =~= old(bytes)@ + enc_items(a));
+                    }
+                    vx_i1 += 1;
+                }
+                proof { assert(items@.take(items@.len() as int) =~= items@); }
+            },
+        )
+    }
 
-    #[verifier::external_body]
+    #[verifier::loop_isolation(false)]
     fn deserialize(bytes: &[u8]) -> (r: Result<Self, Error>)
+      requires eq_law::<T>(),
       ensures
-        valid_fi_image::<T>(bytes@) ==> r is Ok,
-        r matches Ok(a) ==> a.cwf(),
-    { unimplemented!() }
+        /*@C13.fi.api_accepts*/ valid_fi_image::<T>(bytes@) ==> r is Ok,
+        /*@C13.fi.api_view_empty*/ valid_fi_image::<T>(bytes@) && hdr_empty(bytes@) ==> (r matches Ok(a) && a.hash_map.num_active == 0 && a.stream_weight == 0 && a.offset == 0
+              && a.lg_max_map_size == lgmax3(bytes@[3]) && a.hash_map.lg_length == lgmax3(bytes@[4]) && forall|k: T| !a.hash_map.holds(k)),
+        /*@C13.fi.api_view*/ valid_fi_image::<T>(bytes@) && !hdr_empty(bytes@) ==> (r matches Ok(a) && a.stream_weight == hdr_sw(bytes@) && a.offset == hdr_off(bytes@)
+              && a.lg_max_map_size == lgmax3(bytes@[3]) && a.hash_map.lg_length == lgmax3(bytes@[4]) && a.hash_map.num_active == hdr_n(bytes@)
+              && (forall|k: T| a.hash_map.holds(k) == dec_keys::<T>(bytes@)->0.contains(k))
+              && (forall|k: T| a.hash_map.val(k) == rows_val(dec_keys::<T>(bytes@)->0, dec_vals(bytes@), k))),
+        /*@C14.fi.api_rejects_bad_header*/ r is Ok ==> bytes@.len() >= 8 && bytes@[1] == 1 && bytes@[2] == 10 && bytes@[4] <= bytes@[3]
+              && hdr_pre(bytes@) == (if hdr_empty(bytes@) { 1u8 } else { 4u8 }),
+        /*@C14.fi.api_rejects_truncated*/ r is Ok && !hdr_empty(bytes@) ==> (bytes@.len() >= 32 + 8 * hdr_n(bytes@) && (dec_keys::<T>(bytes@) matches Some(ks) && ks.len() == hdr_n(bytes@))),
+        /*@C14.fi.api_cwf*/ r matches Ok(a) ==> a.cwf(),
+    {
+        Self::deserialize_inner(bytes, |mut cursor: SketchSlice<'_>, num_items: usize| -> (res: Result<Vec<T>, Error>)
+            ensures /*@C13.fi.api_items*/ res matches Ok(v) ==> dec_items::<T>(cursor.rem(), num_items as int) == Some(v@),
+              /*@C14.fi.api_items*/ res is Err ==> dec_items::<T>(cursor.rem(), num_items as int) is None,
+        { {
+            let ghost rem0 = cursor.rem();
+            let mut items = Vec::with_capacity(num_items);
+            proof { assert(Seq::<T>::empty() + dec_items::<T>(rem0, num_items as int)->0 =~= dec_items::<T>(rem0, num_items as int)->0); }
+            for i in 0..num_items
+              invariant /*@C13.fi.api_items*/ dec_items::<T>(rem0, num_items as int) == prepend(items@, dec_items::<T>(cursor.rem(), num_items - i)),
+            {
+                let ghost it0 = items@; let ghost c0 = cursor.rem();
+                proof { if dec_item::<T>(c0) is None { assert(dec_items::<T>(c0, num_items - i) is None); assert(dec_items::<T>(rem0, num_items as int) is None); } }
+                let item = T::deserialize_value(&mut cursor).vx_reerr()?;
+                items.push(item);
+                proof {
+                    let t = dec_items::<T>(cursor.rem(), num_items - i - 1);
+                    if t is Some { assert(it0 + (seq![item] + t->0) =~= it0.push(item) + t->0); }
+                }
+            }
+            proof { assert(items@ + Seq::<T>::empty() =~= items@); }
+            Ok(items)
+        } })
+    }
 }
 
 // =====================================================================================================================
